@@ -27,10 +27,8 @@ func genC01(rt *rapid.T, st *Stats) *Case {
 	n, ies, _ := genGraph(rt, GraphSpec{MaxN: maxN, MaxM: maxM, Families: allFam, Union: true, SelfLoops: true, Parallel: true})
 	ids := genIDs(rt, n, chance(rt, "adversarial_ids", 1, 4))
 	c := &Case{Edges: toEdges(ies, func(i int) string { return ids[i] })}
-	poss := allPos
-	if regime == "large" || n > 24 {
-		poss = fastPos // the NetworkSimplex positioner is documented as unsuitable beyond a few dozen nodes
-	}
+	_ = regime
+	poss := posFor(n, len(ies), allPos)
 	genOptions(rt, c, NodeIDs(c.Edges), OptSpec{CBs: allCB, Lays: allLay, Poss: poss, BKForced: true, Rts: allRt,
 		Thorough: true, Virt: true, Sizes: 0, NSZero: true, LSZero: true, DefaultsOK: true})
 	if c.Rt == RtSplines && !inSplineSafeDomain(c) {
@@ -50,7 +48,8 @@ func regimeForTier(rt *rapid.T) (int, int, string) {
 }
 
 // forceSplineSafe rewrites sizes/spacings/positioner of c so that it lies in D_S.
-func forceSplineSafe(rt *rapid.T, c *Case, big bool) {
+func forceSplineSafe(rt *rapid.T, c *Case, _ bool) {
+	big := len(NodeIDs(c.Edges)) > 16 || len(c.Edges) > 24 // same bound as posFor
 	w, h := genDim(rt, "ds_w", false), genDim(rt, "ds_h", false)
 	c.SzMode = SzFixed
 	c.Fixed = Sz{w, h}
